@@ -13,7 +13,6 @@ import (
 	"runtime"
 	"runtime/debug"
 	"strings"
-	"time"
 )
 
 // BlockKind says what a disabled thread is waiting for.
@@ -28,6 +27,7 @@ const (
 	BlockIO             // harness connection read / accept
 )
 
+//go:norace
 func (k BlockKind) String() string {
 	return [...]string{"none", "lock", "waitgroup", "once", "chan", "io"}[k]
 }
@@ -42,6 +42,7 @@ const (
 	ChSelect                   // which ready case of a select statement is taken
 )
 
+//go:norace
 func (k ChoiceKind) String() string { return [...]string{"thread", "map", "env", "select"}[k] }
 
 // ChoicePoint is one recorded decision of an execution.
@@ -65,7 +66,7 @@ const (
 type Thread struct {
 	ID    int
 	Name  string
-	wake  chan struct{}
+	wake  baton
 	gone  chan struct{}
 	state threadState
 	pred  func() bool
@@ -88,7 +89,7 @@ type Event struct {
 type Exec struct {
 	threads    []*Thread
 	cur        *Thread
-	mainWake   chan struct{}
+	mainWake   baton
 	prefix     []int
 	pos        int
 	Points     []ChoicePoint
@@ -116,6 +117,7 @@ type Exec struct {
 // TraceAll makes every new execution record its step log (debugging aid).
 var TraceAll bool
 
+//go:norace
 func (e *Exec) logStep(kind, site string) {
 	name := "main"
 	if e.cur != nil {
@@ -133,31 +135,44 @@ var (
 )
 
 // Active reports whether a controlled execution is in progress.
+//
+//go:norace
 func Active() bool { return active }
 
 // Cur returns the execution in progress (nil if none).
+//
+//go:norace
 func Cur() *Exec { return ex }
 
 // Begin starts a controlled execution that will replay prefix and then take default choices.
+//
+//go:norace
 func Begin(prefix []int) *Exec {
 	if active {
 		panic("zzvrt: Begin while an execution is active")
 	}
-	e := &Exec{mainWake: make(chan struct{}, 1), prefix: prefix, Horizon: 2_000_000, exploring: true, TraceSteps: TraceAll}
+	e := &Exec{mainWake: newBaton(), prefix: prefix, Horizon: 2_000_000, exploring: true, TraceSteps: TraceAll}
 	ex = e
 	active = true
 	return e
 }
 
 // SetExploring switches recording of choice points on/off. While off every choice is the default.
+//
+//go:norace
 func (e *Exec) SetExploring(on bool) { e.exploring = on }
 
 // Divergence returns a non-empty description if replaying the prefix went out of range.
+//
+//go:norace
 func (e *Exec) Divergence() string { return e.divergent }
 
 // PrefixConsumed reports whether the whole prefix has been replayed.
+//
+//go:norace
 func (e *Exec) PrefixConsumed() bool { return e.pos >= len(e.prefix) }
 
+//go:norace
 func (e *Exec) event(kind, detail string) {
 	name := "main"
 	if e.cur != nil {
@@ -167,6 +182,8 @@ func (e *Exec) event(kind, detail string) {
 }
 
 // choose records a choice point with n>1 alternatives and returns the index taken.
+//
+//go:norace
 func (e *Exec) choose(kind ChoiceKind, n int, curEnabled bool, site string) int {
 	if n <= 1 || !e.exploring || e.killed {
 		return 0
@@ -187,6 +204,8 @@ func (e *Exec) choose(kind ChoiceKind, n int, curEnabled bool, site string) int 
 }
 
 // Choose offers an environment choice with n alternatives at site; default 0.
+//
+//go:norace
 func Choose(site string, n int) int {
 	e := ex
 	if !active || e == nil || e.EnvSite == nil || !e.EnvSite(site) {
@@ -195,6 +214,7 @@ func Choose(site string, n int) int {
 	return e.choose(ChEnv, n, false, site)
 }
 
+//go:norace
 func (t *Thread) enabled() bool {
 	switch t.state {
 	case tsRunnable:
@@ -206,6 +226,8 @@ func (t *Thread) enabled() bool {
 }
 
 // enabledOthers appends every enabled thread except skip, ascending id.
+//
+//go:norace
 func (e *Exec) enabledOthers(skip *Thread, buf []*Thread) []*Thread {
 	for _, t := range e.threads {
 		if t != skip && t.enabled() {
@@ -215,15 +237,16 @@ func (e *Exec) enabledOthers(skip *Thread, buf []*Thread) []*Thread {
 	return buf
 }
 
+//go:norace
 func (e *Exec) switchTo(from, to *Thread) {
 	e.cur = to
 	if to.state == tsBlocked {
 		to.state = tsRunnable
 		to.pred = nil
 	}
-	to.wake <- struct{}{}
+	to.wake.signal()
 	if from != nil {
-		<-from.wake
+		from.wake.wait()
 		if e.killed {
 			runtime.Goexit()
 		}
@@ -231,6 +254,8 @@ func (e *Exec) switchTo(from, to *Thread) {
 }
 
 // Point is a scheduling point of the running thread.
+//
+//go:norace
 func Point(site string) {
 	if !active {
 		return
@@ -262,6 +287,8 @@ func Point(site string) {
 
 // Block disables the running thread until pred holds. pred is evaluated by the
 // scheduler while no thread runs; it must be side-effect free.
+//
+//go:norace
 func Block(kind BlockKind, what string, pred func() bool) {
 	if !active {
 		panic("zzvrt.Block outside an execution")
@@ -285,12 +312,14 @@ func Block(kind BlockKind, what string, pred func() bool) {
 }
 
 // yieldFrom hands control away from a thread that cannot continue (blocked or done).
+//
+//go:norace
 func (e *Exec) yieldFrom(t *Thread) {
 	var buf [8]*Thread
 	others := e.enabledOthers(t, buf[:0])
 	if len(others) == 0 {
 		e.cur = nil
-		e.mainWake <- struct{}{}
+		e.mainWake.signal()
 	} else {
 		c := e.choose(ChThread, len(others), false, "blocked")
 		next := others[c]
@@ -306,18 +335,20 @@ func (e *Exec) yieldFrom(t *Thread) {
 			next.state = tsRunnable
 			next.pred = nil
 		}
-		next.wake <- struct{}{}
+		next.wake.signal()
 	}
 	if t.state == tsDone {
 		return
 	}
-	<-t.wake
+	t.wake.wait()
 	if e.killed {
 		runtime.Goexit()
 	}
 }
 
 // Go registers fn as a new thread. Outside an execution it is a plain goroutine.
+//
+//go:norace
 func Go(name string, fn func()) {
 	if !active {
 		go fn()
@@ -327,11 +358,11 @@ func Go(name string, fn func()) {
 	if e.killed {
 		return
 	}
-	t := &Thread{ID: len(e.threads), Name: fmt.Sprintf("%s#%d", name, len(e.threads)), wake: make(chan struct{}, 1), gone: make(chan struct{})}
+	t := &Thread{ID: len(e.threads), Name: fmt.Sprintf("%s#%d", name, len(e.threads)), wake: newBaton(), gone: make(chan struct{})}
 	e.threads = append(e.threads, t)
 	go func() {
 		defer close(t.gone)
-		<-t.wake
+		t.wake.wait()
 		if e.killed {
 			t.state = tsDone
 			return
@@ -354,6 +385,7 @@ func Go(name string, fn func()) {
 	Point("go:" + name)
 }
 
+//go:norace
 func trimStack(s string) string {
 	lines := strings.Split(s, "\n")
 	out := []string{}
@@ -370,6 +402,8 @@ func trimStack(s string) string {
 }
 
 // Run lets threads run until none is enabled. Called by the driver (main goroutine).
+//
+//go:norace
 func (e *Exec) Run() {
 	if e.cur != nil {
 		panic("zzvrt: Run re-entered")
@@ -386,14 +420,8 @@ func (e *Exec) Run() {
 		next.state = tsRunnable
 		next.pred = nil
 	}
-	next.wake <- struct{}{}
-	select {
-	case <-e.mainWake:
-	case <-time.After(60 * time.Second):
-		buf := make([]byte, 1<<20)
-		n := runtime.Stack(buf, true)
-		panic("zzvrt: execution stalled for 60s of real time (uninstrumented blocking operation?)\n" + string(buf[:n]))
-	}
+	next.wake.signal()
+	e.mainWake.waitWatchdog()
 }
 
 // ThreadInfo describes a thread at quiescence.
@@ -406,6 +434,8 @@ type ThreadInfo struct {
 }
 
 // Threads returns the state of every thread.
+//
+//go:norace
 func (e *Exec) Threads() []ThreadInfo {
 	out := make([]ThreadInfo, len(e.threads))
 	for i, t := range e.threads {
@@ -418,6 +448,8 @@ func (e *Exec) Threads() []ThreadInfo {
 }
 
 // Deadlocked reports whether, at quiescence, some thread is blocked on a lock.
+//
+//go:norace
 func (e *Exec) Deadlocked() (bool, string) {
 	var b []string
 	lock := false
@@ -436,6 +468,8 @@ func (e *Exec) Deadlocked() (bool, string) {
 }
 
 // Alive returns the names of threads that have not finished.
+//
+//go:norace
 func (e *Exec) Alive() []string {
 	var out []string
 	for _, t := range e.threads {
@@ -447,10 +481,14 @@ func (e *Exec) Alive() []string {
 }
 
 // Steps returns the number of scheduling points passed.
+//
+//go:norace
 func (e *Exec) Steps() int { return e.steps }
 
 // End terminates every unfinished thread (runtime.Goexit at its wait point, deferred
 // calls run with all shims inert) and deactivates the runtime.
+//
+//go:norace
 func (e *Exec) End() {
 	e.killed = true
 	e.cur = nil
@@ -461,20 +499,25 @@ func (e *Exec) End() {
 			continue
 		default:
 		}
-		select {
-		case t.wake <- struct{}{}:
-		default:
-		}
+		t.wake.trySignal()
 		<-t.gone
 	}
+	for _, t := range e.threads {
+		t.wake.close()
+	}
+	e.mainWake.close()
 	active = false
 	ex = nil
 }
 
 // Killed reports whether the execution is being torn down (shims must be inert).
+//
+//go:norace
 func Killed() bool { return ex != nil && ex.killed }
 
 // NoteEvent lets shims record a runtime event.
+//
+//go:norace
 func NoteEvent(kind, detail string) {
 	if ex != nil {
 		ex.event(kind, detail)
@@ -482,6 +525,8 @@ func NoteEvent(kind, detail string) {
 }
 
 // CurThread returns the running thread (nil for the driver).
+//
+//go:norace
 func CurThread() *Thread {
 	if ex == nil {
 		return nil
@@ -490,6 +535,8 @@ func CurThread() *Thread {
 }
 
 // RHeld returns the per-thread read-lock table of the running thread.
+//
+//go:norace
 func (t *Thread) RHeld() map[any]int {
 	if t.rheld == nil {
 		t.rheld = map[any]int{}
@@ -500,7 +547,11 @@ func (t *Thread) RHeld() map[any]int {
 // ---- virtual clock ----
 
 // NowMillis returns the virtual time in milliseconds since the virtual epoch.
+//
+//go:norace
 func (e *Exec) NowMillis() int64 { return e.now }
 
 // Advance moves the virtual clock forward.
+//
+//go:norace
 func (e *Exec) Advance(ms int64) { e.now += ms }
